@@ -104,20 +104,24 @@ CLAIMS = {
         level="other", engine="engine B (boolshape.py)",
         text="Same-path rules (must-pass-through, who-may-call, dominance) show that file, environment and string "
              "sources are split by make_arg_array() and evaluated by the one iterateArguments()/evalSingleArgument() "
-             "evaluator under a scoped read-mode flag; the scanner of splitString() is evaluated abstractly for all 60 "
-             "combinations of scanner state x character class x word-empty and the extracted transition table is "
-             "compared with the facts from which split(join(escape(ws))) == ws follows for backslash escaping - a "
-             "finite check that is valid for all strings; argv capacity by Engine C. Other quoting disciplines and "
+             "evaluator under a scoped read-mode flag; the scanner loop of splitString() is interpreted as a finite-state "
+             "transducer over the character classes {backslash, ', \", blank, other} (whatever local scalars it keeps, "
+             "no names assumed) and explored in lock-step with a reference splitter from the initial state: every "
+             "reachable pair of states must produce the same output events for every class - a bisimulation that is "
+             "valid for all strings and from which split(join(escape(ws))) == ws follows for backslash escaping; a "
+             "difference is reported with the shortest character-class sequence leading to it; argv capacity by Engine C. Other quoting disciplines and "
              "value equality between sources are not decided.",
         note="trusts clang AST/CFG; std::string append/clear semantics; round trip claimed for backslash escaping only",
         also=("engine A (cfg.py)", "engine C (lin.py, bounds.py)"),
-        technique="static analysis: abstract evaluation of the scanner's transition table + CFG path rules"),
+        technique="static analysis: product-automaton exploration (bisimulation) of the scanner against a reference transducer + CFG path rules"),
     "C08": dict(
         level="other", engine="engine A (cfg.py)",
         text="Sibling agreement between group evaluation and stand-alone evaluation: per-member must-pass-through "
              "of the same four end checks in Groups::evalArguments, dispatch-loop shape (unknown -> next member -> "
              "exception), cross-handler key check on every path that adds an argument, all four container pairs "
-             "compared with == and mismatch().",
+             "compared with == and mismatch(); the flag word Groups hands to new member handlers contains hfInGroup "
+             "from the constructor on and no update clears the bit (every write evaluated over all combinations of "
+             "the flag bits it mentions), so every member runs the cross-handler key check.",
         note="trusts clang AST/CFG; per-member identification rules are those of C02; value equality between the "
              "two evaluation paths is not decided",
         technique="static analysis: sibling agreement + per-iteration must-pass-through on the CFG"),
